@@ -815,6 +815,16 @@ fn gen_c12(tier: &Tier, rng: &mut Rng, w: usize, nw: usize, out: &mut Vec<Case>)
         push_list(wild_tlf(rng), out);
     }
     if w == 0 {
+        // list lengths at the top of the 32-bit range: the announced count must be exact and the parser
+        // must not continue with a wrapped working count (the input ends long before that many entries)
+        for t in ["ff8f8f8f8f8f8f0f", "ff8f8f8f8f8f8f0e", "ff8f8f8f8f8f8f0d", "ff8f8f8f8f8f8f00", "f88080808080800f"] {
+            for tail in ["", "01", "0101", "630000", "01016300", "0101630000007601"] {
+                let mut x = glr_prefix();
+                x.extend(unhex(t).unwrap());
+                x.extend(unhex(tail).unwrap());
+                out.push(Case::new("tlf-huge-list", vec![format!("stream {} 3", tok(&x))]).with_aux(vec![t.to_string()]));
+            }
+        }
         // valid octet-string fields whose own encoding is very long: the field size must be subtracted exactly
         for pad in LONG_FIELD_PADS {
             for valid in [true, false] {
